@@ -547,6 +547,26 @@ fn captured_case(
     let base = capture_once(alg, a, or.clone(), b, nr.clone(), entry, None, far);
     let base_ops = judge(focus, cfg, alg, a, &or, b, &nr, entry, None, &base, out);
 
+    // a timeout too large to be added to `now` is "no deadline": still a valid script, same ops
+    if focus == Focus::C02 && (n + m) % 4 == 0 && n <= 200 && m <= 200 && or.start == 0 && nr.start == 0 && or.end == a.len() && nr.end == b.len() {
+        out.eval();
+        let r = guard(|| {
+            let sa: Vec<String> = a.iter().map(|x| format!("t{}\n", x)).collect();
+            let sb: Vec<String> = b.iter().map(|x| format!("t{}\n", x)).collect();
+            let ra: Vec<&str> = sa.iter().map(|s| s.as_str()).collect();
+            let rb: Vec<&str> = sb.iter().map(|s| s.as_str()).collect();
+            let d = if (n + m) % 8 == 0 { std::time::Duration::MAX } else { std::time::Duration::from_secs(u64::MAX) };
+            TextDiff::configure().algorithm(alg).timeout(d).diff_slices(&ra, &rb).ops().to_vec()
+        });
+        let run = r.map(|ops| Run { ops, swaps: 0, probes: 0 });
+        let got = judge(focus, cfg, alg, a, &or, b, &nr, 2, None, &run, out);
+        if let (Some(g), Some(b0)) = (&got, &base_ops) {
+            if g != b0 {
+                out.violation("deadline.never_expiring_differs", format!("TextDiff with timeout(Duration::MAX / u64::MAX s) gives {} but no deadline gives {} | alg={} old={} new={}", fmt_ops(g), fmt_ops(b0), alg_name(alg), fmt_seq(a), fmt_seq(b)));
+            }
+        }
+        out.count("huge_timeout_runs");
+    }
     if focus == Focus::C03 {
         return;
     }
